@@ -432,12 +432,12 @@ def sweeps(ctx):
     plan = [([B22], None), ([B23], None), ([B33], None), ([B32], None),
             ([B22, B22], None), ([B22, B23], None), ([B23, B22], None), ([B23, B23], None), ([B32, B23], None),
             ([B22, B22, B22], None),
-            ([B33, B33], 262144 if thorough else 6000), ([B33, B23], None if thorough else 3000),
-            ([B23, B33], None if thorough else 3000),
-            ([B22, B22, B23], None if thorough else 3000), ([B23, B22, B23], 100000 if thorough else 3000),
-            ([B33, B22, B33], 50000 if thorough else 1500),
-            ([B22, B22, B22, B22], None if thorough else 4000), ([B22, B23, B22, B32], 60000 if thorough else 2000),
-            ([B22, B22, B22, B22, B22], 40000 if thorough else 1500)]
+            ([B33, B33], 262144 if thorough else 3000), ([B33, B23], None if thorough else 1500),
+            ([B23, B33], None if thorough else 1500),
+            ([B22, B22, B23], None if thorough else 1500), ([B23, B22, B23], 100000 if thorough else 1500),
+            ([B33, B22, B33], 50000 if thorough else 800),
+            ([B22, B22, B22, B22], None if thorough else 2000), ([B22, B23, B22, B32], 60000 if thorough else 1000),
+            ([B22, B22, B22, B22, B22], 40000 if thorough else 800)]
     jobs = []
     meta = []
     for blocks, sample in plan:
@@ -489,7 +489,7 @@ def run(ctx):
     ]
     rng = ctx.rng
     thorough = ctx.tier == 'thorough'
-    n_ml, n_mal, n_re, n_kv, n_kp, n_gen = (6000, 600, 800, 2500, 1200, 400) if thorough else (900, 90, 120, 400, 200, 80)
+    n_ml, n_mal, n_re, n_kv, n_kp, n_gen = (6000, 600, 800, 2500, 1200, 400) if thorough else (600, 60, 100, 300, 150, 60)
     cases = []
     # the two inputs of DESIGN.md section 5 first
     cases.append({'kind': 'ml', 'bs': [[2, 2]] * 4, 'bidx': [[[0, 0], [1, 1]], [[0, 1], [1, 0]], [[0, 0]], [[0, 0]]],
@@ -515,7 +515,10 @@ def run(ctx):
         dist[key] = dist.get(key, 0) + 1
     log('[C15] %d cases: %s' % (len(cases), dist))
 
+    import time
+    t0 = time.time()
     results, probe = run_impl(ctx, cases)
+    log('[C15] implementation run: %.1fs' % (time.time() - t0))
     if not probe.get('rect_ok', True):
         ctx.report('impl:matvec-rect-L2', 'MLMatrix.dot with rectangular blocks ((2,3),(2,2)), data=arange(24).reshape(6,4), '
                    'x=ones(6): got %s, the dense product is [27, 39, 99, 111]' % (probe.get('out'),),
@@ -529,12 +532,16 @@ def run(ctx):
         if bad:
             nfail += 1
             report_case(ctx, c, r, bad)
+    t0 = time.time()
     sw_dist, sw_fail = sweeps(ctx)
+    log('[C15] sweeps: %.1fs' % (time.time() - t0))
     log('[C15] sweeps: %s' % sw_dist)
     ctx.cov['traces_validated_against_impl'] = len(cases)
     ctx.cov['property_failures_on_impl'] = nfail + sw_fail
     # stage 2: correspondence with the model
+    t0 = time.time()
     dis = tie(ctx, cases, results)
+    log('[C15] Coq case files: %.1fs' % (time.time() - t0))
     ctx.cov['disagreements_checked'] = len(dis)
     seen = set()
     for (c, r, comp) in dis:
@@ -598,7 +605,25 @@ META = {
     'technique': 'Rocq proofs (induction over the list of levels; odometer invariant; mixed-radix bijection) about a Gallina '
                  'transcription of mlmatrix.py/mlmatrix_cy.pyx + exact correspondence of every index list / sparse matrix / '
                  'matvec with the implementation (vm_compute case files) + exhaustive pattern sweeps against a dense Kronecker oracle',
-    'level_text': 'filled in by the final report',
+    'level_text': 'Theorems (Coq, unbounded: any number of levels, square or rectangular blocks, any per-level pattern in any entry '
+                  'order): to_seq/from_seq are mutually inverse bijections between range(prod dims) and the valid multi-indices '
+                  '(seq_bijection_*); sequential (i,j) <-> multilevel index are mutually inverse and the reordered numbering is its '
+                  'two-level case (reindex_inverse, reindex_inverse_conv, reindex_from_reordered_two_level); ml_nonzero_2d/3d/nd and '
+                  'MLStructure.nonzero return the Kronecker pattern in data-layout order and with lower_tri its J<=I sub-list '
+                  '(nonzero_2d_spec, nonzero_3d_spec, nonzero_nd_spec via the odometer invariant odometer_is_product, nonzero_spec); that '
+                  'pattern is, as a set, the positionwise Kronecker product (kron_pattern_is_kronecker); nonzeros_for_rows/columns return '
+                  'exactly the entries of the requested rows/columns, in the order of the request, for unsorted/empty/repeated lists, and '
+                  'refuse indices outside the matrix (rows_spec, rows_defined, cols_spec); transposition swaps the pattern and is an '
+                  'involution (transpose_spec, transpose_involution); dot = dense matrix times vector with an output of shape[0] entries '
+                  'and no out-of-range write (matvec_spec); asmatrix denotes the sum of the data entries per layout position '
+                  '(asmatrix_spec); compute_sparsity_ij on monotone support arrays is exactly the set of overlapping support pairs '
+                  '(sparsity_ij_spec). Not theorems (tie + oracle only): reorder of levels, kron_partial values, get_transpose_idx_for_bidx. '
+                  'The model (repaired behaviour for three defects, fixes/C15-*.patch) is tied to /repo on every run by exact comparison '
+                  'of 13 observables per structure on ~650 random structures (thorough ~6600) of 1..6 levels plus reindexing tables, '
+                  'knot-vector pairs (same/nested/unrelated meshes, degrees 0..4, repeated knots), partial Kronecker products and pattern '
+                  'generators, evaluated by vm_compute; and the property is evaluated directly on the implementation with a plain-Python '
+                  'dense Kronecker oracle, exhaustively over all 0/1 patterns of 2x2/2x3/3x2/3x3 blocks for one and two levels '
+                  '(3x3 pairs and 3 levels with 2x3 blocks exhaustive in the thorough tier, sampled in quick) and 2x2x2 for three levels.',
     'level_note': 'Trusted: Coq kernel + vm_compute; hand transcription (coq/C15/Model.v) validated by the exact correspondence run; '
                   'harness generators and the Python oracle. Not modelled: C-level memory safety, integer overflow of uint32/size_t, scipy format conversions.',
 }
